@@ -10,7 +10,10 @@
    directory name + base name recompose the path              dir_plus_base_recomposes, dir_plus_base_denotes_path
    stem + extension recompose the base name                   stem_plus_extension_recomposes, base_minus_extension
    (scanners = the reference "before/after the last ...")     scanners_match_reference
-   getRelativePath(from,to) appended to from denotes to       relative_path_denotes_target
+   getRelativePath(from,to) appended to from denotes to       relative_path_denotes_target_wide (same kind, `from` keeps no more leading ".."
+                                                              than `to`: whenever a lexical answer exists; round 5, code repaired by
+                                                              fixes/C19/11), relative_path_denotes_target (the special case without ".."),
+                                                              old_hypothesis_is_special_case
    B. files and directories (library logic over the kernel model of FsModel part K, which is trusted)
    files return exactly the bytes written across              files_return_written_bytes (any history of write / seek /
      write/append/seek/readAll                                read / readAll / size on a read-write handle refines the byte
@@ -21,7 +24,12 @@
                                                               written_bytes_are_read_back, write_changes_nothing_else
      ... copy / rename                                        copy_carries_the_bytes (exact state afterwards, for every outcome
                                                               of the kernel's transfer calls), copy_leaves_the_rest,
-                                                              rename_carries_the_node (exact state afterwards)
+                                                              rename_carries_the_node (exact state afterwards);
+                                                              that they DO say true where the text obliges them to (round 5; without
+                                                              these an always-false copy / rename met every statement above):
+                                                              copy_succeeds, copy_overwrites, rename_succeeds (any path text, stated
+                                                              through what the texts resolve to), copy_succeeds_on_plain_names,
+                                                              copy_overwrites_on_plain_names, rename_succeeds_on_plain_names
    failed operations report failure without leaving           failed_open_changes_nothing, failed_rename_changes_nothing,
      new files behind                                         rename_of_missing_source_fails, failed_copy_changes_nothing
                                                               (transfers complete), failed_copy_touches_only_destination and
@@ -64,7 +72,7 @@
 From Coq Require Import ZArith List Bool.
 From Path Require Import PathSpec PathModel PathProofs RelProofs.
 From Path Require Import FsSpec FsModel FsListSpec FsTree FsWalk FsFile FsHandle FsDir FsCreate FsMkdirs FsMove FsCopy FsWf.
-From Path Require Import FsFault FsPurge FsList FsMisc.
+From Path Require Import FsFault FsPurge FsList FsMisc FsSucceed.
 Import ListNotations.
 Local Open Scope Z_scope.
 
@@ -134,6 +142,19 @@ Print Assumptions relative_path_denotes_target.
 (* ---- non-vacuity --------------------------------------------------------------------------------- *)
 
 (* "/a/./b//../c/" simplifies to "/a/c" *)
+(* The class in which a lexical answer exists at all: same kind, and `from` keeps no more leading ".." than `to` (to come
+   back down below a ".." one would need a name no lexical function has).  Round 5: the code was wrong there when `to` is a
+   directory above `from` spelled with ".." ("../a" -> ".." gave "../../.."); repaired by fixes/C19/11, which PathModel mirrors. *)
+Theorem relative_path_denotes_target_wide : forall from to,
+  rel_hyp_wide from to = true ->
+  simplifyPath (rel_joined from (getRelativePath from to)) = simplifyPath to.
+Proof. exact relative_path_denotes_target_wide_l. Qed.
+Print Assumptions relative_path_denotes_target_wide.
+
+Theorem old_hypothesis_is_special_case : forall from to, rel_hyp from to = true -> rel_hyp_wide from to = true.
+Proof. exact rel_hyp_is_wide. Qed.
+Print Assumptions old_hypothesis_is_special_case.
+
 Example ex_simplify : simplifyPath [47;97;47;46;47;98;47;47;46;46;47;99;47] = [47;97;47;99].
 Proof. vm_compute. reflexivity. Qed.
 (* "../a/.." keeps its leading ".." *)
@@ -162,6 +183,17 @@ Proof. vm_compute. auto. Qed.
 Example ex_relative_nothing_common : rel_hyp [97;47;98] [99] = true /\
   getRelativePath [97;47;98] [99] = [46;46;47;46;46;47;99].
 Proof. vm_compute. auto. Qed.
+(* `to` is a directory above `from`, also when it is spelled with ".." (repair fixes/C19/11; the code answered "../../..",
+   which appended to "../a" denotes three levels up): outside rel_hyp, see level_note *)
+Example ex_relative_to_ancestor :
+  rel_hyp_wide [46;46;47;97] [46;46] = true /\ rel_hyp [46;46;47;97] [46;46] = false /\
+  rel_hyp_wide [46;46;47;97] [46;46;47;46;46;47;99] = true /\ rel_hyp_wide [46;46;47;46;46;47;97] [46;46] = false /\
+  getRelativePath [46;46;47;97] [46;46;47;46;46;47;99] = [46;46;47;46;46;47;99] /\
+  getRelativePath [97;47;98] [97] = [46;46;47] /\
+  getRelativePath [46;46;47;97] [46;46] = [46;46;47] /\
+  simplifyPath (rel_joined [46;46;47;97] (getRelativePath [46;46;47;97] [46;46])) = simplifyPath [46;46] /\
+  getRelativePath [46;46;47;46;46;47;97;47;98] [46;46;47;46;46] = [46;46;47;46;46;47].
+Proof. vm_compute. repeat split; reflexivity. Qed.
 Example ex_relative_root : rel_hyp [47] [47;97] = true /\ getRelativePath [47] [47;97] = [97].
 Proof. vm_compute. auto. Qed.
 
@@ -269,6 +301,73 @@ Theorem rename_carries_the_node : forall st from to fie st',
       get (root st') (d2 ++ [n2]) = Some x)).
 Proof. exact rename_exact. Qed.
 Print Assumptions rename_carries_the_node.
+
+(* ---- copy / rename DO succeed (round 5, second audit finding 4) -------------------------------------
+   All statements above are conditional on the answer.  These are not: when the source text leads to a
+   regular file (copy: through links) / to any node (rename: a link in last position not followed), the
+   destination text leads to a free place in an existing directory (rename: not below the source; with
+   failIfExists the source is no directory - its placeholder is a regular file, see level_note), and every
+   transfer call of the kernel completes (f_copy = f_copy_o []), the answer is true and the state is the
+   one copy_carries_the_bytes / rename_carries_the_node describe. *)
+Theorem copy_succeeds : forall st src dst fie ds ns c dd nd es,
+  resolve st true src = WAt ds ns (Some SFile) -> get (root st) (ds ++ [ns]) = Some (NFile c) ->
+  resolve st false dst = WAt dd nd None -> get (root st) dd = Some (NDir es) ->
+  f_copy st src dst fie = (set_root st (upd (root st) (dd ++ [nd]) (Some (NFile c))), true).
+Proof. exact copy_succeeds_l. Qed.
+Print Assumptions copy_succeeds.
+
+(* ... and over an existing regular file other than the source, without failIfExists *)
+Theorem copy_overwrites : forall st src dst ds ns c dd nd c0,
+  resolve st true src = WAt ds ns (Some SFile) -> get (root st) (ds ++ [ns]) = Some (NFile c) ->
+  resolve st true dst = WAt dd nd (Some SFile) -> get (root st) (dd ++ [nd]) = Some (NFile c0) ->
+  ds ++ [ns] <> dd ++ [nd] ->
+  f_copy st src dst false = (set_root st (upd (root st) (dd ++ [nd]) (Some (NFile c))), true).
+Proof. exact copy_overwrites_l. Qed.
+Print Assumptions copy_overwrites.
+
+Theorem rename_succeeds : forall st from to fie d1 n1 x d2 n2 es,
+  resolve st false from = WAt d1 n1 (Some (shallow x)) -> get (root st) (d1 ++ [n1]) = Some x ->
+  resolve st false to = WAt d2 n2 None -> get (root st) d2 = Some (NDir es) ->
+  is_prefix (d1 ++ [n1]) (d2 ++ [n2]) = false ->
+  (fie = true -> shallow x <> SDir) ->
+  f_rename st from to fie
+  = (set_root st (upd (upd (root st) (d1 ++ [n1]) None) (d2 ++ [n2]) (Some x)), true).
+Proof. exact rename_succeeds_l. Qed.
+Print Assumptions rename_succeeds.
+
+(* the same read off the tree alone, for texts of proper names through real directories (the class of
+   create_succeeds and of the unlink theorem; what the judge line "must succeed" of checks/C19.py asks of the code) *)
+Theorem copy_succeeds_on_plain_names : forall st sn sc dn dc fie c es,
+  names_ok (sn ++ [sc]) -> names_ok (dn ++ [dc]) ->
+  get (root st) ((cwd st ++ sn) ++ [sc]) = Some (NFile c) ->
+  get (root st) (cwd st ++ dn) = Some (NDir es) ->
+  get (root st) ((cwd st ++ dn) ++ [dc]) = None ->
+  f_copy st (join (sn ++ [sc])) (join (dn ++ [dc])) fie
+  = (set_root st (upd (root st) ((cwd st ++ dn) ++ [dc]) (Some (NFile c))), true).
+Proof. exact copy_succeeds_plain. Qed.
+Print Assumptions copy_succeeds_on_plain_names.
+
+Theorem copy_overwrites_on_plain_names : forall st sn sc dn dc c c0,
+  names_ok (sn ++ [sc]) -> names_ok (dn ++ [dc]) ->
+  get (root st) ((cwd st ++ sn) ++ [sc]) = Some (NFile c) ->
+  get (root st) ((cwd st ++ dn) ++ [dc]) = Some (NFile c0) ->
+  (cwd st ++ sn) ++ [sc] <> (cwd st ++ dn) ++ [dc] ->
+  f_copy st (join (sn ++ [sc])) (join (dn ++ [dc])) false
+  = (set_root st (upd (root st) ((cwd st ++ dn) ++ [dc]) (Some (NFile c))), true).
+Proof. exact copy_overwrites_plain. Qed.
+Print Assumptions copy_overwrites_on_plain_names.
+
+Theorem rename_succeeds_on_plain_names : forall st sn sc dn dc fie x es,
+  names_ok (sn ++ [sc]) -> names_ok (dn ++ [dc]) ->
+  get (root st) ((cwd st ++ sn) ++ [sc]) = Some x ->
+  get (root st) (cwd st ++ dn) = Some (NDir es) ->
+  get (root st) ((cwd st ++ dn) ++ [dc]) = None ->
+  is_prefix ((cwd st ++ sn) ++ [sc]) ((cwd st ++ dn) ++ [dc]) = false ->
+  (fie = true -> shallow x <> SDir) ->
+  f_rename st (join (sn ++ [sc])) (join (dn ++ [dc])) fie
+  = (set_root st (upd (upd (root st) ((cwd st ++ sn) ++ [sc]) None) ((cwd st ++ dn) ++ [dc]) (Some x)), true).
+Proof. exact rename_succeeds_plain. Qed.
+Print Assumptions rename_succeeds_on_plain_names.
 
 (* a source that does not exist is refused, also by rename(x, x, true) (repair fixes/C19/08) *)
 Theorem rename_of_missing_source_fails : forall st from to fie,
@@ -495,6 +594,39 @@ Example ex_copy_self_link :
   let st1 := fst (f_symlink demo [104] [108]) in f_copy st1 [104] [108] false = (st1, false).
 Proof. vm_compute. reflexivity. Qed.
 (* rename(m, m, true) for a missing m: false, nothing created *)
+(* the hypotheses of the success theorems in demo: copy h -> a/n (free), copy h -> a/f (a regular file), rename of the
+   directory a/b to the free place n without failIfExists, rename of the link a/l to a/b/m with it *)
+Example ex_copy_succeeds_hypotheses :
+  names_ok ([] ++ [[104]]) /\ names_ok ([[97]] ++ [[110]]) /\
+  get (root demo) ((cwd demo ++ []) ++ [[104]]) = Some (NFile [120;121]) /\
+  (exists es, get (root demo) (cwd demo ++ [[97]]) = Some (NDir es)) /\
+  get (root demo) ((cwd demo ++ [[97]]) ++ [[110]]) = None /\
+  f_copy demo [104] [97;47;110] true = (set_root demo (upd (root demo) ((cwd demo ++ [[97]]) ++ [[110]]) (Some (NFile [120;121]))), true).
+Proof.
+  split; [repeat constructor|]. split; [repeat constructor|]. split; [vm_compute; reflexivity|].
+  split; [eexists; vm_compute; reflexivity|]. split; vm_compute; reflexivity.
+Qed.
+Example ex_copy_overwrites_hypotheses :
+  get (root demo) ((cwd demo ++ [[97]]) ++ [[102]]) = Some (NFile [104;105]) /\
+  (cwd demo ++ []) ++ [[104]] <> (cwd demo ++ [[97]]) ++ [[102]] /\
+  f_copy demo [104] [97;47;102] false = (set_root demo (upd (root demo) ((cwd demo ++ [[97]]) ++ [[102]]) (Some (NFile [120;121]))), true).
+Proof.
+  split; [vm_compute; reflexivity|]. split; [vm_compute; discriminate|]. vm_compute; reflexivity.
+Qed.
+Example ex_rename_succeeds_hypotheses :
+  (exists es, get (root demo) ((cwd demo ++ [[97]]) ++ [[98]]) = Some (NDir es) /\ es <> []) /\
+  get (root demo) ((cwd demo ++ []) ++ [[110]]) = None /\
+  is_prefix ((cwd demo ++ [[97]]) ++ [[98]]) ((cwd demo ++ []) ++ [[110]]) = false /\
+  snd (f_rename demo [97;47;98] [110] false) = true /\
+  get (root (fst (f_rename demo [97;47;98] [110] false))) (cwd demo ++ [[110]; [103]]) = Some (NFile []) /\
+  (exists t, get (root demo) ((cwd demo ++ [[97]]) ++ [[108]]) = Some (NLink t)) /\
+  snd (f_rename demo [97;47;108] [97;47;98;47;109] true) = true /\
+  f_rename demo [97;47;98] [110] true = (demo, false).
+Proof.
+  split; [eexists; split; [vm_compute; reflexivity|discriminate]|].
+  split; [vm_compute; reflexivity|]. split; [vm_compute; reflexivity|]. split; [vm_compute; reflexivity|].
+  split; [vm_compute; reflexivity|]. split; [eexists; vm_compute; reflexivity|]. split; vm_compute; reflexivity.
+Qed.
 Example ex_rename_missing_self : k_lstat demo [109] = None /\ f_rename demo [109] [109] true = (demo, false).
 Proof. vm_compute. split; reflexivity. Qed.
 Example ex_rename :
